@@ -225,7 +225,11 @@ def d3_epsilon(ctx, m):
         pro = [s for s in f.body if not (isinstance(s, ast.Expr) and isinstance(s.value, ast.Constant)) and not isinstance(s, ast.Return)]
         wrong = []
         try:
-            code = compile(ast.Module(body=pro or [ast.Pass()], type_ignores=[]), '<prologue>', 'exec')
+            # module-level constants (sets of admissible indices) the guard may refer to
+            consts = [x for x in m.tree.body if isinstance(x, ast.Assign) and isinstance(x.value, (ast.Call, ast.Set, ast.Tuple, ast.List, ast.Dict, ast.Constant))
+                      and all(isinstance(y, (ast.Assign, ast.Name, ast.Constant, ast.Set, ast.Tuple, ast.List, ast.Dict, ast.Call, ast.Load, ast.Store, ast.keyword)) for y in ast.walk(x))
+                      and all(call_name(y) in ('frozenset', 'set', 'tuple', 'range') for y in ast.walk(x.value) if isinstance(y, ast.Call))]
+            code = compile(ast.Module(body=consts + (pro or [ast.Pass()]), type_ignores=[]), '<prologue>', 'exec')
             for tup in itertools.product(range(-1, n + 2), repeat=n):
                 envv = dict(zip(p, tup))
                 rejected = False
